@@ -11,11 +11,12 @@ Definition text := list N.          (* strings are lists of Unicode code points 
 (* functions.go: paramAsIs() / paramDecremented() / paramBySpaces() *)
 Inductive pmig := PAsIs | PDecremented | PBySpaces.
 
-(* functions.go: asIs() / asRename(n) / asTemplate(fmt) / asJoin(sep) /
+(* functions.go: asIs() / asRename(n) / asTemplate(fmt) = [Template fmt []] /
+   asOperatorTemplate(fmt, prec...) = [Template fmt precs] / asJoin(sep, prec) /
    asParamMigrators(n, pm...) = asParamMigratorsWithDefaults(n, nil, pm...) *)
 Inductive cmig :=
 | AsIs
 | Rename (new_name : text)
-| Template (fmt : text)
-| Join (sep : text)
+| Template (fmt : text) (precs : list nat)
+| Join (sep : text) (prec : nat)
 | Params (new_name : text) (defaults : list text) (pms : list pmig).
